@@ -193,7 +193,9 @@ func runC20(c *Ctx) {
 		}
 		if r.Chance(40) {
 			// fields and globals whose keys are also names of functions and router tests
-			refs := []string{"@fields.title", "@contact.fields.code", "@(fields.date)", "@globals.count", "@(globals.min & fields.text)", "@fields.number", "@(upper(contact.fields.title))", "@globals.max"}
+			refs := []string{"@fields.title", "@contact.fields.code", "@(fields.date)", "@globals.count", "@(globals.min & fields.text)", "@fields.number", "@(upper(contact.fields.title))", "@globals.max",
+				// the contact is also reachable through the run
+				"@run.contact.fields.code", "@(run.contact.fields.title)"}
 			b, _ := json.Marshal(map[string]any{"uuid": us.next(), "type": "send_msg", "text": "Dear " + Pick(r, refs) + " / " + Pick(r, refs)})
 			n1Actions = append(n1Actions, b)
 		}
@@ -536,7 +538,8 @@ func findRefs(t, top string) []string {
 		for end < len(lower) && (lower[end] == '_' || lower[end] >= 'a' && lower[end] <= 'z' || lower[end] >= '0' && lower[end] <= '9') {
 			end++
 		}
-		viaContact := top == "fields" && strings.HasSuffix(lower[:idx+j], "@contact.") || strings.HasSuffix(lower[:idx+j], "(contact.")
+		viaContact := top == "fields" && strings.HasSuffix(lower[:idx+j], "@contact.") || strings.HasSuffix(lower[:idx+j], "(contact.") ||
+			top == "fields" && (strings.HasSuffix(lower[:idx+j], "@run.contact.") || strings.HasSuffix(lower[:idx+j], "(run.contact."))
 		if end > start && (idx+j == 0 || viaContact || !(lower[idx+j-1] >= 'a' && lower[idx+j-1] <= 'z' || lower[idx+j-1] == '_' || lower[idx+j-1] == '.')) {
 			out = append(out, lower[start:end])
 		}
